@@ -257,6 +257,42 @@ def _canon_children(st: ast.AST) -> None:
         c.body = _canon_block(c.body)
 
 
+def _match_to_if(st: ast.Match):
+    """`match S:` whose cases are argument-less class patterns (`case C():`, `case A() | B():`), optionally guarded wildcards
+    (`case _ if g:`) and a final `case _:` — the isinstance chain `if isinstance(S, C): … elif isinstance(S, (A, B)): …`.  Only
+    for a subject that is a plain name / attribute path (evaluated once either way)."""
+    if not _is_pure(st.subject) or isinstance(st.subject, (ast.Constant, ast.Tuple)):
+        return None
+    arms = []
+    for c in st.cases:
+        p = c.pattern
+        alts = p.patterns if isinstance(p, ast.MatchOr) else [p]
+        if all(isinstance(a, ast.MatchClass) and not a.patterns and not a.kwd_patterns for a in alts):
+            classes = [a.cls for a in alts]
+            cls = classes[0] if len(classes) == 1 else ast.Tuple(elts=classes, ctx=ast.Load())
+            t = ast.Call(func=ast.Name(id="isinstance", ctx=ast.Load()), args=[copy.deepcopy(st.subject), cls], keywords=[])
+            if c.guard is not None:
+                t = ast.BoolOp(op=ast.And(), values=[t, c.guard])
+            arms.append((t, c.body))
+        elif isinstance(p, ast.MatchAs) and p.pattern is None and p.name is None:
+            arms.append((c.guard, c.body))  # wildcard: guard or unconditional
+        else:
+            return None
+    if not arms or any(t is None for t, _ in arms[:-1]):
+        return None
+    node = None
+    for t, body in reversed(arms):
+        if t is None:
+            node = body
+        else:
+            node = [ast.If(test=t, body=body, orelse=node if isinstance(node, list) else ([] if node is None else [node]))]
+    head = node[0] if isinstance(node, list) and len(node) == 1 and isinstance(node[0], ast.If) else None
+    if head is None:
+        return None
+    ast.copy_location(head, st)
+    return ast.fix_missing_locations(head)
+
+
 def _assign_pair(st: ast.If):
     """`if c: x = A else: x = B` (one plain assignment to the same name in each arm) -> (name target, A, B)."""
     if len(st.body) != 1 or len(st.orelse) != 1:
@@ -299,7 +335,37 @@ def _canon_block(stmts: list[ast.stmt], in_function: bool = True) -> list[ast.st
             out.append(ast.copy_location(ast.If(test=st.test, body=st.body, orelse=[]), st))
             out.extend(_canon_block(st.orelse))
             continue
+        if isinstance(st, ast.Match):
+            conv = _match_to_if(st)  # C15: a `match` over class patterns is the isinstance chain
+            if conv is not None:
+                out.extend(_canon_block([conv]))
+                continue
         _canon_children(st)
+        # C3g: `if a: if b: X` (no else anywhere) is `if a and b: X`
+        while isinstance(st, ast.If) and not st.orelse and len(st.body) == 1 and isinstance(st.body[0], ast.If) and not st.body[0].orelse:
+            inner = st.body[0]
+            st = ast.copy_location(ast.If(test=simplify_test(ast.BoolOp(op=ast.And(), values=[st.test, inner.test])), body=inner.body, orelse=[]), st)
+        # C3h: `while a: if not b: break; REST` is `while a and b: REST`
+        if isinstance(st, ast.While) and not st.orelse and st.body and isinstance(st.body[0], ast.If) and not st.body[0].orelse and len(st.body[0].body) == 1 and isinstance(st.body[0].body[0], ast.Break) and len(st.body) > 1:
+            st = ast.copy_location(ast.While(test=simplify_test(ast.BoolOp(op=ast.And(), values=[st.test, negate(st.body[0].test)])), body=st.body[1:], orelse=[]), st)
+        # C9b: `x = A` ; `if not x: x = B`  is  `x = A or B`   (and `if x: x = B` is `x = A and B`)
+        if isinstance(st, ast.If) and not st.orelse and len(st.body) == 1 and out and isinstance(out[-1], ast.Assign) and len(out[-1].targets) == 1 and isinstance(out[-1].targets[0], ast.Name):
+            prev, a = out[-1], st.body[0]
+            nm = prev.targets[0].id
+            t = st.test
+            neg = isinstance(t, ast.UnaryOp) and isinstance(t.op, ast.Not)
+            subj = t.operand if neg else t
+            if isinstance(a, ast.Assign) and len(a.targets) == 1 and isinstance(a.targets[0], ast.Name) and a.targets[0].id == nm and isinstance(subj, ast.Name) and subj.id == nm and nm not in {x.id for x in ast.walk(a.value) if isinstance(x, ast.Name)}:
+                comb = ast.BoolOp(op=ast.Or() if neg else ast.And(), values=[prev.value, a.value])
+                out[-1] = ast.fix_missing_locations(ast.copy_location(ast.Assign(targets=prev.targets, value=ast.copy_location(comb, prev.value), lineno=prev.lineno), prev))
+                continue
+        # C9c: `if c: return A else: return B` is `return A if c else B`
+        if isinstance(st, ast.If) and len(st.body) == 1 and len(st.orelse) == 1 and isinstance(st.body[0], ast.Return) and isinstance(st.orelse[0], ast.Return) and st.body[0].value is not None and st.orelse[0].value is not None and not _is_chain_head(st):
+            e = ast.IfExp(test=st.test, body=st.body[0].value, orelse=st.orelse[0].value)
+            if _is_negative(e.test):
+                e = ast.IfExp(test=negate(e.test), body=e.orelse, orelse=e.body)
+            out.append(ast.fix_missing_locations(ast.copy_location(ast.Return(value=ast.copy_location(e, st)), st)))
+            continue
         if isinstance(st, ast.If) and st.orelse and not _is_chain_head(st) and _assign_pair(st) is not None:
             tgt, va, vb = _assign_pair(st)  # C9
             e = ast.IfExp(test=st.test, body=va, orelse=vb)
@@ -331,7 +397,19 @@ def _mark_function_locals(tree: ast.Module) -> None:
                     n._in_function = True
 
 
+def _plain_field_defaults(tree: ast.Module) -> None:
+    """`x: T = field(default=V)` in a class body is `x: T = V` (dataclasses: `field` with nothing but `default`)."""
+    for c in ast.walk(tree):
+        if isinstance(c, ast.ClassDef):
+            for st in c.body:
+                if isinstance(st, ast.AnnAssign) and isinstance(st.value, ast.Call) and not st.value.args and len(st.value.keywords) == 1 and st.value.keywords[0].arg == "default":
+                    f = st.value.func
+                    if (isinstance(f, ast.Name) and f.id == "field") or (isinstance(f, ast.Attribute) and f.attr == "field"):
+                        st.value = st.value.keywords[0].value
+
+
 def local_canon(tree: ast.Module) -> ast.Module:
+    _plain_field_defaults(tree)
     _mark_function_locals(tree)
     tree = _NNF().visit(tree)
     tree = _Tests().visit(tree)
@@ -1173,10 +1251,14 @@ class _Inliner:
         refs = [(m, n) for m, n in self._refs(h) if id(n) not in own]
         if not refs:
             return False  # unused new function: nothing to see through, leave it (its own body is analysed as is)
-        # every reference must be the func of a Call that is the whole value of a simple statement
+        # every reference must be the func of a Call that is the whole value of a simple statement; a call of a statement
+        # helper sitting inside a larger expression (`xs.append(self._h(a))`) is first given a statement of its own
+        # (`t = self._h(a); xs.append(t)`) when everything the statement evaluates before it is pure
         plans = []
         for mod, ref in refs:
             site = self._site(mod, ref, h)
+            if site is None and not h.is_expr and self._hoist(mod, ref):
+                site = self._site(mod, ref, h)
             if site is None:
                 return False
             plans.append(site)
@@ -1197,6 +1279,71 @@ class _Inliner:
                 if not holder:
                     holder.append(ast.Pass())
         self.inlined.append(h.qual)
+        return True
+
+    def _hoist(self, mod: str, ref: ast.AST) -> bool:
+        tree = self.trees[mod]
+        parents: dict[int, ast.AST] = {}
+        for p in ast.walk(tree):
+            for c in ast.iter_child_nodes(p):
+                parents[id(c)] = p
+        call = parents.get(id(ref))
+        if not (isinstance(call, ast.Call) and call.func is ref):
+            return False
+        # climb to the statement; everything evaluated before the call on the way must be pure
+        node: ast.AST = call
+        while True:
+            par = parents.get(id(node))
+            if par is None or isinstance(par, (ast.Lambda, ast.GeneratorExp, ast.ListComp, ast.SetComp, ast.DictComp, ast.IfExp, ast.BoolOp, ast.comprehension, ast.NamedExpr)):
+                return False
+            if isinstance(par, ast.stmt):
+                stmt = par
+                break
+            earlier: list[ast.AST] = []
+            if isinstance(par, ast.Call):
+                seq = [par.func] + list(par.args) + [k.value for k in par.keywords]
+                earlier = seq[: next(i for i, x in enumerate(seq) if x is node)] if any(x is node for x in seq) else [None]
+            elif isinstance(par, ast.keyword) or isinstance(par, ast.Starred):
+                earlier = []
+            elif isinstance(par, (ast.Tuple, ast.List)):
+                earlier = par.elts[: next(i for i, x in enumerate(par.elts) if x is node)]
+            elif isinstance(par, ast.BinOp):
+                earlier = [par.left] if node is par.right else []
+            elif isinstance(par, ast.Attribute):
+                earlier = []
+            elif isinstance(par, ast.Subscript):
+                earlier = [par.value] if node is par.slice else []
+            else:
+                return False
+            if any(e is None or not _is_pure(e) for e in earlier):
+                return False
+            node = par
+        if not (isinstance(stmt, (ast.Expr, ast.Assign, ast.AnnAssign, ast.AugAssign, ast.Return)) and getattr(stmt, "value", None) is not None and any(x is call for x in ast.walk(stmt.value))):
+            return False
+        if isinstance(stmt, (ast.Assign, ast.AnnAssign, ast.AugAssign)) and not all(isinstance(t, ast.Name) for t in (stmt.targets if isinstance(stmt, ast.Assign) else [stmt.target])):
+            return False  # a subscript / attribute target is evaluated before the value only partly: keep out
+        fn = stmt
+        while fn is not None and not isinstance(fn, (ast.FunctionDef, ast.AsyncFunctionDef, ast.Module)):
+            fn = parents.get(id(fn))
+        if not isinstance(fn, (ast.FunctionDef, ast.AsyncFunctionDef)):
+            return False
+        block = _find_block(fn, stmt)
+        if block is None:
+            return False
+        self.uid += 1
+        tmp = f"_hoisted{self.uid}"
+        asg = ast.fix_missing_locations(ast.copy_location(ast.Assign(targets=[ast.Name(id=tmp, ctx=ast.Store())], value=call, lineno=stmt.lineno), stmt))
+
+        class R(ast.NodeTransformer):
+            def visit_Call(self, n):
+                if n is call:
+                    return ast.copy_location(ast.Name(id=tmp, ctx=ast.Load()), n)
+                self.generic_visit(n)
+                return n
+
+        stmt.value = R().visit(stmt.value)
+        i = next(k for k, s_ in enumerate(block) if s_ is stmt)
+        block.insert(i, asg)
         return True
 
     def _site(self, mod: str, ref: ast.AST, h: Helper):
@@ -2177,6 +2324,59 @@ def see_through_module_constants(trees: dict[str, ast.Module], known: dict) -> l
     return out
 
 
+def see_through_namedtuples(trees: dict[str, ast.Module], known: dict) -> list[str]:
+    """C16: a module-level class the tables do not know that derives from NamedTuple and declares nothing but fields is a tuple
+    with names: `Cls(a, b, c)` (positional, or keywords in any order) is replaced by the tuple display `(a, b, c)` in field
+    order.  What is lost is attribute access by field name on the result — an analysis that meets `.field` on a tuple does
+    not recognise it and ends as un-analysable, never as a verdict."""
+    kc = known.get("name_tables", {}).get("classes", {})
+    out: list[str] = []
+    for mod, tree in trees.items():
+        nts: dict[str, list[str]] = {}
+        for st in tree.body:
+            if isinstance(st, ast.ClassDef) and f"{mod}:{st.name}" not in kc and any((isinstance(b, ast.Name) and b.id == "NamedTuple") or (isinstance(b, ast.Attribute) and b.attr == "NamedTuple") for b in st.bases):
+                body = [x for x in st.body if not (isinstance(x, ast.Expr) and isinstance(x.value, ast.Constant))]
+                if body and all(isinstance(x, ast.AnnAssign) and isinstance(x.target, ast.Name) and x.value is None for x in body):
+                    nts[st.name] = [x.target.id for x in body]
+        if not nts:
+            continue
+
+        class T(ast.NodeTransformer):
+            def visit_Call(self, n: ast.Call):
+                self.generic_visit(n)
+                if isinstance(n.func, ast.Name) and n.func.id in nts and not any(isinstance(a, ast.Starred) for a in n.args) and not any(k.arg is None for k in n.keywords):
+                    fields = nts[n.func.id]
+                    vals: dict[str, ast.expr] = dict(zip(fields, n.args))
+                    for k in n.keywords:
+                        vals[k.arg] = k.value
+                    if list(vals) and set(vals) == set(fields) and len(n.args) + len(n.keywords) == len(fields):
+                        # keyword arguments are evaluated in call order; keep that order only if it is the field order
+                        order = [f for f in fields[: len(n.args)]] + [k.arg for k in n.keywords]
+                        if order == fields or all(_is_pure(v) for v in vals.values()):
+                            return ast.copy_location(ast.Tuple(elts=[vals[f] for f in fields], ctx=ast.Load()), n)
+                return n
+
+        trees[mod] = T().visit(tree)
+        out.extend(f"{mod}:{k}" for k in sorted(nts))
+    return out
+
+
+class _SpliceStars(ast.NodeTransformer):
+    """`f(x, *(a, b))` is `f(x, a, b)`."""
+
+    def visit_Call(self, n: ast.Call):
+        self.generic_visit(n)
+        if any(isinstance(a, ast.Starred) and isinstance(a.value, (ast.Tuple, ast.List)) and not any(isinstance(e, ast.Starred) for e in a.value.elts) for a in n.args):
+            args: list[ast.expr] = []
+            for a in n.args:
+                if isinstance(a, ast.Starred) and isinstance(a.value, (ast.Tuple, ast.List)) and not any(isinstance(e, ast.Starred) for e in a.value.elts):
+                    args.extend(a.value.elts)
+                else:
+                    args.append(a)
+            n.args = args
+        return n
+
+
 def canonicalize(trees: dict[str, ast.Module], known: dict | None) -> dict:
     """In-place canonicalisation of all module trees; returns a log of what was rewritten."""
     log = {"inlined_helpers": [], "propagated_locals": 0, "lambdas_from_defs": 0, "loops_to_comprehensions": 0, "renamed_binders": 0}
@@ -2184,6 +2384,7 @@ def canonicalize(trees: dict[str, ast.Module], known: dict | None) -> dict:
         trees[mod] = local_canon(trees[mod])
     if known is not None:
         log["module_constants"] = see_through_module_constants(trees, known)
+        log["namedtuples"] = see_through_namedtuples(trees, known)
         kf = known["functions"]
         # names first: a known private function that was merely renamed must not be mistaken for a new helper
         log["renamed_private"] = canonical_private_names(trees, known)
@@ -2214,7 +2415,7 @@ def canonicalize(trees: dict[str, ast.Module], known: dict | None) -> dict:
                         break
                 if entry is not None:
                     log["renamed_binders"] += canonical_names(fn, entry)
-            trees[mod] = _SliceCalls().visit(tree)
+            trees[mod] = _SpliceStars().visit(_SliceCalls().visit(tree))
         # inlining / propagation can expose new guard / polarity forms
         for mod in list(trees):
             trees[mod] = local_canon(trees[mod])
